@@ -290,7 +290,20 @@ def reference_classes(tree, flat, ref_scopes):
 
 def judge(units, flat, src, std, intr, shadows, ref_scopes, bystander=False):
     out = []
+    # a new parser is created for every case (ParserFactory().create(std)), as a
+    # user would: the tables must describe THIS program, whatever was parsed before
+    from mc import base
+
+    from fparser.two.symbol_table import SYMBOL_TABLES
+
+    SYMBOL_TABLES.clear()  # (harness: every case starts from empty tables, so that it replays on its own)
+    base.forget_parser()
     o = try_parse(src, std)
+    if o.ok:
+        # ... and once more: create(std) again, parse the same source again -
+        # the tables are those of ONE parse of this program
+        base.forget_parser()
+        o = try_parse(src, std)
     if not o.ok:
         return [("rejected:" + o.klass(), (o.msg or "")[:200])], o
     exp = expected_tables(units, intr, shadows, ref_scopes, bystander)
